@@ -70,11 +70,12 @@ def _grid(rnd):
         "unconstrained_convex_minimization.conjugate_gradient": lambda: (dict(L=L, n=rnd.randint(1, 4)), ["L", "n"]),
         "unconstrained_convex_minimization.gradient_exact_line_search": lambda: (dict(L=L, mu=mu, n=rnd.randint(1, 3)), ["L", "mu", "n"]),
         "unconstrained_convex_minimization.inexact_gradient_descent": lambda: (dict(L=L, mu=mu, epsilon=rnd.choice([0.1, 0.3, 0.0]), n=rnd.randint(1, 3)), ["L", "mu", "epsilon", "n"]),
-        "fixed_point_problems.krasnoselskii_mann_constant_step_sizes": lambda: (dict(n=rnd.randint(1, 8), gamma=rnd.choice([0.5, 0.75, 0.9, 0.97, 0.99, 0.6])), ["gamma", "n"]),
+        "fixed_point_problems.krasnoselskii_mann_constant_step_sizes": lambda: (lambda k: dict(n=k, gamma=rnd.choice([0.5, 0.75, 0.6] if rnd.random() < .5 else [0.5 * (1 + math.sqrt(k / (k + 1))) + 0.6 * (1 - 0.5 * (1 + math.sqrt(k / (k + 1)))), 0.99, 1.0])))(rnd.randint(1, 6)) and None or (lambda k: (dict(n=k, gamma=(rnd.choice([0.5, 0.75, 0.6]) if rnd.random() < .5 else rnd.choice([0.5 * (1 + math.sqrt(k / (k + 1))) * 0.4 + 0.6, 0.99, 1.0]))), ["gamma", "n"]))(rnd.randint(1, 6)),
         "monotone_inclusions_variational_inequalities.optimal_strongly_monotone_proximal_point": lambda: (dict(n=rnd.randint(1, 5), mu=rnd.choice([0.05, 0.23, 0.5, 1.0])), ["mu", "n"]),
         "composite_convex_minimization.bregman_proximal_point": lambda: (dict(gamma=rnd.choice([3.0, 1.0, 0.5]), n=rnd.randint(1, 6)), ["gamma", "n"]),
         "unconstrained_convex_minimization.heavy_ball_momentum_qg_convex": lambda: (dict(L=L, n=rnd.randint(1, 6)), ["L", "n"]),
         "nonconvex_optimization.gradient_descent": lambda: (dict(L=L, gamma=1 / L, n=rnd.randint(1, 6)), ["L", "n"]),
+        "stochastic_and_randomized_convex_minimization.sgd": lambda: (dict(L=L, mu=mu, gamma=1 / L, v=rnd.choice([1.0, 2.0, 0.5, 3.0]), R=rnd.choice([1.0, 0.5, 2.0]), n=rnd.randint(2, 4)), ["L", "mu", "v", "R"]),
         "composite_convex_minimization.douglas_rachford_splitting_contraction": lambda: (dict(mu=mu, L=L, alpha=rnd.choice([3.0, 1.0, 0.5]), theta=1, n=rnd.randint(1, 2)), ["mu", "L", "alpha", "n"]),
     }
     return fam
@@ -152,7 +153,52 @@ def c10_equivalent(n, seed, procs):
     return dict(evaluations=len(pairs), distinct=len(pairs), failures=fails[:5], samples=samples)
 
 
-ORACLES = dict(c10_examples=c10_examples, c10_refs=c10_refs, c10_equivalent=c10_equivalent)
+def _sweep_job(job):
+    """several parameter tuples of one example, one after the other in ONE interpreter"""
+    from examples_run import run_example
+    mod, func, tuples = job
+    return [run_example(mod, func, a) for a in tuples]
+
+
+def c10_sweeps(n, seed, procs):
+    """parameter sweeps the way a user runs them: several tuples of the same example in one interpreter,
+    in two different orders; every value must equal the Lean closed form whatever was computed before"""
+    from multiprocessing import Pool
+    rnd = random.Random(seed * 5003 + 3)
+    names = sorted(_grid(rnd).keys())
+    jobs, metas = [], []
+    for it in range(n):
+        name = names[(it + seed) % len(names)]
+        tuples = []
+        for _ in range(3):
+            a, order = _grid(rnd)[name]()
+            tuples.append((a, order))
+        if rnd.random() < .5: tuples = tuples[::-1]
+        jobs.append(("PEPit.examples." + name, "wc_" + name.split(".")[-1], [a for a, _ in tuples])); metas.append((name, tuples))
+    lines = ["ref %s %s" % (nm, " ".join(str(Fr(float(a[k]))) for k in order)) for nm, tuples in metas for a, order in tuples]
+    out = subprocess.run([DRIVER], input="\n".join(lines) + "\n", capture_output=True, text=True).stdout.splitlines()
+    with Pool(max(1, procs)) as p:
+        res = p.map(_sweep_job, jobs, chunksize=1)
+    fails, samples, distinct, k, ev = [], [], set(), 0, 0
+    for (nm, tuples), rr in zip(metas, res):
+        for (a, order), r in zip(tuples, rr):
+            o = out[k]; k += 1
+            if not o.startswith("ref ") or o.split()[1] in ("outside-domain", "unknown", "arity"): continue
+            ref = int(o.split()[1]) / 1e12; ev += 1
+            desc = dict(example=nm, args=a, sweep=[t for t, _ in tuples], lean_closed_form=ref)
+            distinct.add(nm + json.dumps([t for t, _ in tuples], sort_keys=True))
+            if r["err"]:
+                if "SolverError" in r["err"]: continue
+                fails.append(dict(what="%s raises %s during a sweep" % (nm, r["err"]), oracle="c10_sweeps", input=desc, tags=["c10"])); continue
+            if r["pepit"] is None or not _close(r["pepit"], ref):
+                fails.append(dict(what="%s: inside a parameter sweep the computed value is %r, the published closed form %.9g" % (nm, r["pepit"], ref), oracle="c10_sweeps", input=desc, observed=r["pepit"], expected=ref, tags=["c10"]))
+            if r["theory"] is None or not _close(r["theory"], ref, rel=1e-6):
+                fails.append(dict(what="%s: closed form returned inside a sweep %r differs from the published one %.9g" % (nm, r["theory"], ref), oracle="c10_sweeps", input=desc, tags=["c10"]))
+        if len(samples) < 2: samples.append(dict(example=nm, sweep=[t for t, _ in tuples]))
+    return dict(evaluations=ev, distinct=len(distinct), failures=fails[:6], samples=samples)
+
+
+ORACLES = dict(c10_examples=c10_examples, c10_refs=c10_refs, c10_equivalent=c10_equivalent, c10_sweeps=c10_sweeps)
 try:
     import oracles5
     ORACLES.update(oracles5.ORACLES)
